@@ -36,7 +36,22 @@ fn main() {
         _ => {}
     }
     let args = Args::parse();
-    vh_common::silence_panics();
+    if std::env::var("VH_LOUD").is_err() {
+        vh_common::silence_panics();
+    }
+    // private copy of the model driver: other checks may relink lean/.lake/build/bin/vdriver while we run
+    let driver = std::env::var("VDRIVER").unwrap_or_else(|_| "/verif/lean/.lake/build/bin/vdriver".to_string());
+    let copy = std::env::temp_dir().join(format!("vdriver-vh-config-{}", std::process::id()));
+    for _attempt in 0..20 {
+        if std::fs::copy(&driver, &copy).is_ok() {
+            unsafe { std::env::set_var("VDRIVER", &copy) };
+            let probe = vh_common::catch(|| vh_common::run_driver(&["uri.encrow 65".to_string()]));
+            if probe.map(|a| a == vec!["ok 41".to_string()]).unwrap_or(false) {
+                break;
+            }
+        }
+        std::thread::sleep(std::time::Duration::from_secs(3));
+    }
     let mut report = Report::default();
     match args.prop.as_str() {
         "C34" => uri::run(&args, &mut report),
@@ -52,4 +67,5 @@ fn main() {
         }
     }
     report.write(&args.out);
+    let _ = std::fs::remove_file(&copy);
 }
